@@ -73,6 +73,7 @@ _EVAL_NOTE = ("Trusted: Lean kernel; the hand-written mirror of EVAL/eval_ast/do
               "the real interpreter in a freshly loaded environment and diffing value / thrown value / ordered trace! effects / final definitions / "
               "poll count / EVAL-frame depth marks with the model; Go integer wrap-around and float arithmetic are not modelled.")
 PROPS["C01"] = {
+    "model_is_spec": ['eval'],
     "lean_module": "LispModel.Props.C01",
     "engines": [{"name": "eval", "quick": 6000, "thorough": 120000}],
     "ignore_spec": {},
@@ -84,6 +85,7 @@ PROPS["C01"] = {
     "assumptions": ["programs over the modelled builtin vocabulary", "hash-map literals with effectful values are evaluated in Go map order (outside the property's program class)"],
 }
 PROPS["C03"] = {
+    "model_is_spec": ['try'],
     "lean_module": "LispModel.Props.C03",
     "engines": [{"name": "try", "quick": 5000, "thorough": 100000}],
     "technique": "Lean 4 theorems about the try/catch/finally arm of the evaluator model + differential correspondence on nested try programs",
@@ -124,6 +126,7 @@ PROPS["C08"] = {
     "assumptions": ["bytes of Go stack per frame and Go's own stack growth are not modelled"],
 }
 PROPS["C12"] = {
+    "model_is_spec": ['qq', 'macro'],
     "lean_module": "LispModel.Props.C12",
     "engines": [{"name": "qq", "quick": 4000, "thorough": 80000}, {"name": "macro", "quick": 1500, "thorough": 30000}],
     "technique": "Lean 4 theorems (quasiquote = template substitution; macro call = evaluation of its expansion) + differential correspondence",
@@ -133,6 +136,7 @@ PROPS["C12"] = {
     "assumptions": ["cons, concat and vec resolve to the core builtins in the scope of the template (the code looks them up by name)"],
 }
 PROPS["C13"] = {
+    "model_is_spec": ['coll'],
     "lean_module": "LispModel.Props.C13",
     "engines": [{"name": "coll", "quick": 8000, "thorough": 200000}],
     "technique": "Lean 4 algebraic laws of the pure builtin model (sequence / map / set model) + differential correspondence on generated calls and compositions",
@@ -154,22 +158,25 @@ PROPS["C18"] = {
 
 PROPS["C20"] = {
     "lean_module": "LispModel.Props.C20",
+    # the code before the repairs 2f9941a / e281c62, frozen, with the two findings proved against it: rebuilt on every run
+    "tie_modules": ["LispModel.Proofs.CallBaseline"],
     "engines": [{"name": "call", "quick": 20000, "thorough": 300000}],
     "technique": "Lean 4 theorems about the model of lib/call (name derivation, bound selection, _args/_args_ctx, reflect.Call's checks, "
                  "adapters, _recover) against the binder contract + differential correspondence of call.Call/CallOverrideFN",
-    "level_text": "Kernel-checked: entered <-> admissible, arguments verbatim, result mapping, panic wrapping, name derivation, registration "
-                  "totality for all signature shapes, declarations and argument lists of the model; the model is tied to lib/call/call.go by "
-                  "registering generated Go functions (432 named + 432 closures in two packages, one import path with and one without a dot, "
-                  "ctx x 0-3 fixed x variadic x 0-2 results x int/string/interface parameters) through both entry points in a fresh environment "
-                  "and calling them with 0...max+2 arguments of every kind incl. nil (and 998...1002 arguments around the default maximum); "
-                  "entered?/arguments seen/result or error class, registration panics, error texts, the registered symbol and the _PACKAGES_ key "
-                  "are diffed with the model and with the contract on every run.",
-    "level_note": "On the unchanged tree the contract is violated in two classes (kept visible as binder_contract_statement / "
-                  "registration_total_statement, proved false; the *_partial theorems exclude exactly these classes): "
-                  "(i) _args_ctx subtracts the context parameter from bounds that do not count it (declared bounds, and the default maximum 1000) "
-                  "[keys call.ctx.declared-bounds-off-by-one, call.ctx.unlimited-bound-off-by-one]; "
-                  "(ii) CallOverrideFN with a named function of a package whose import path has no dot panics at registration "
-                  "[key call.override.dotless-package-regpanic]. "
+    "level_text": "Kernel-checked, full strength: entered <-> admissible (binder_contract), the class of the error otherwise, arguments verbatim, "
+                  "result mapping, panic wrapping, name derivation, registration totality for all signature shapes, valid declarations, both entry "
+                  "points, import paths with or without a dot and all argument lists of the model; the model is tied to lib/call/call.go by "
+                  "registering generated Go functions (named functions and closures of every shape ctx x 0-3 fixed x variadic x 0-2 results x "
+                  "int/string/interface parameters, in two packages: one import path with and one without a dot) through both entry points in a "
+                  "fresh environment and calling them with 0...max+2 arguments of every kind incl. nil (and 998...1002 arguments around the default "
+                  "maximum); entered?/arguments seen/result or error class, registration panics, error texts, the registered symbol and the "
+                  "_PACKAGES_ key are diffed with the model and with the contract on every run, the former violation witnesses "
+                  "(corpus/call.txt) first.",
+    "level_note": "History: the contract was violated on the original tree in two classes, repaired by e281c62 (bounds of context-taking "
+                  "functions count lisp arguments; keys call.ctx.declared-bounds-off-by-one, call.ctx.unlimited-bound-off-by-one) and 2f9941a "
+                  "(CallOverrideFN with a named function of a dot-less package; key call.override.dotless-package-regpanic); the old code, the "
+                  "counterexamples and the falsity of the statements for it stay machine-checked in Proofs/CallBaseline.lean; a regression is "
+                  "reported under the same keys. "
                   "Trusted: Lean kernel; the hand-written mirror of call.go and the oracle of reflect.Value.Call's arity/assignability checks "
                   "(both checked by correspondence, not assumed); harness generators and recorder.",
     "assumptions": [
@@ -177,13 +184,53 @@ PROPS["C20"] = {
         "(none | error | (T, error))",
         "the callee does not panic(nil) (its meaning depends on the go line of the main module); the context handed to Func.Fn is not nil",
         "'unlimited' is the binder's constant 1000 (unlimitedArgments): a variadic function without a declared maximum accepts at most 1000 "
-        "lisp arguments by contract; longer lists (e.g. apply on >1000 elements) are rejected with a count error",
-        "function and package names are ASCII (strings.ToLower modelled on ASCII); _PACKAGES_ is unbound or a hash-map at registration",
+        "lisp arguments by contract, with or without a context parameter; longer lists (e.g. apply on >1000 elements) are rejected with a count error",
+        "function and package names are ASCII (strings.ToLower modelled on ASCII) and every runtime function name contains a dot "
+        "(<import path>.<identifier>); _PACKAGES_ is unbound or a hash-map at registration",
     ],
     "explanation": "invoke/register (Lean mirror of lib/call) proved to enter the Go function iff the call is admissible (count within the "
                    "declared-else-derived bounds in lisp arguments, every argument assignable), with verbatim arguments, conventional result "
-                   "mapping, wrapping of callee panics and the hyphenated lower-case name, outside two baseline defect classes that are proved "
-                   "as counterexamples; tie: engine call",
+                   "mapping, wrapping of callee panics, the hyphenated lower-case name and panic-free registration of every valid declaration; "
+                   "tie: engine call",
+}
+
+_CONC_NOTE = ("Trusted: Lean kernel; the hand-written micro-op programs of lib/concurrent (lean/LispModel/Conc.lean, ConcFut.lean), whose shape is "
+              "re-derived from the Go source on every run by the go/ast fact extractor (harness/facts_sync*.go -> Generated/Sync.lean, tie lemmas "
+              "Tie/Sync.lean by decide); the interleaving semantics of sync.RWMutex / sync.Mutex / capacity-1 channels; the harness (witness programs, "
+              "history recorder with a global logical clock, race-detector child); the executable linearizability checker runs inside the Lean driver.")
+_CONC_ASSUME = ["sequential consistency of the micro-op interleaving stands in for the Go memory model (justified for data-race-free executions: "
+                "every shared-field access is lock-guarded, checked from the regenerated `accesses` fact and by the race detector)",
+                "fairness of sync.RWMutex / sync.Mutex for waiting threads (progress theorems show that some thread can always move)"]
+PROPS["C09"] = {
+    "lean_module": "LispModel.Props.C09",
+    "tie_modules": ["LispModel.Tie.Sync"],
+    "engines": [{"name": "conc_atom", "quick": 120, "thorough": 3000}],
+    "trivial_len": 3,
+    "technique": "Lean 4 theorems about an interleaving micro-op model of swap!/reset!/deref/print (lock discipline, linearization points, progress) "
+                 "+ facts regenerated from the source + witness programs, recorded concurrent histories checked for linearizability in Lean, race detector",
+    "level_text": "PARTIAL (memory model, fairness assumed): for any number of threads and any interleaving of the micro-op model of the repaired programs: "
+                  "lock-discipline invariant, every installed value is f(current value) at the linearization point, no lost update, a failing update function "
+                  "leaves the atom unchanged, no lock is held across the update function so some thread can always move; counterexamples (by evaluation) for the "
+                  "programs of the unchanged source. Tie: micro-op sequences and locksets regenerated from concurrent.go must equal the model's programs; "
+                  "real builtins driven from 2-8 goroutines, histories decided by linCheck in the Lean driver; the same under -race.",
+    "level_note": _CONC_NOTE,
+    "assumptions": _CONC_ASSUME + ["update functions that update the very atom being swapped are excluded (as in the property)",
+                                   "values are abstracted to naturals in the model; update functions are pure, failing, atom-reading or other-atom-updating"],
+}
+PROPS["C10"] = {
+    "lean_module": "LispModel.Props.C10",
+    "tie_modules": ["LispModel.Tie.Sync"],
+    "engines": [{"name": "conc_future", "quick": 120, "thorough": 3000}],
+    "trivial_len": 3,
+    "technique": "Lean 4 theorems about an interleaving micro-op model of NewFuture's goroutine / Future.Deref / Future.Cancel / the flag predicates "
+                 "+ facts regenerated from the source + witness programs, recorded histories checked against the sequential future object in Lean, race detector",
+    "level_text": "PARTIAL (memory model, context propagation assumed): for any number of client threads and any interleaving of the micro-op model of the "
+                  "repaired programs: the body is applied once, single-outcome invariant (all derefs agree, the re-deposit never blocks), flags monotone, "
+                  "done after any deref, cancel after completion is a no-op, cancel of a running future sets cancelled, flag accesses guarded by mu; "
+                  "counterexamples (by evaluation) for the programs of the unchanged source. Tie as for C09.",
+    "level_note": _CONC_NOTE,
+    "assumptions": _CONC_ASSUME + ["context.WithCancel propagation is assumed correct (cancelling = the micro-op cancelCtx, seen by a body that honours it)",
+                                   "the system is observed from the moment the `future` call returned (NewFuture spawns exactly one goroutine: regenerated fact)"],
 }
 
 # properties not claimed at this commit, with the reason
